@@ -173,7 +173,8 @@ class Dir:
             # a file without declarations that carries the directive; `go generate` runs it in the package directory
             with open(os.path.join(cwd or self.cwd, "zz_gen.go"), "w") as f:
                 f.write("package %s\n\n//go:generate %s\n" % (self.pkgname(cwd or self.cwd), " ".join(cmd)))
-            cmd = ["go", "generate", "."]
+            # only this directive: the package's own `//go:generate shoot …` line (present for -type=*) names a `shoot` that is not in PATH
+            cmd = ["go", "generate", "-run", re.escape(self.ctx.shoot()), "."]
         e = core.goenv()
         e.update(env or {})
         p = subprocess.run(cmd, cwd=cwd or self.cwd, env=e, stdout=subprocess.PIPE, stderr=subprocess.PIPE, text=True, errors="replace",
